@@ -45,7 +45,8 @@ Ok2(step) == IF 200 \in OkCodes(step) THEN 204 ELSE 200
 ErrCodes(step) == IF Lite THEN {Ok2(step), 404} ELSE {100, Ok2(step), 304, 404, 500}
 Errs(step) == {[R0 EXCEPT !.code = c, !.ctype = sh[1], !.body = sh[2]] : c \in ErrCodes(step), sh \in ErrShapes}
               \cup {[R0 EXCEPT !.code = c, !.body = "endless", !.bend = "cut"] : c \in {Ok2(step)}}
-Redirs == {[R0 EXCEPT !.code = c, !.loc = l] : c \in {302, 307}, l \in {"none", "bad", "path", "url"}}
+Redirs == IF Lite THEN {[R0 EXCEPT !.code = 302, !.loc = "path"], [R0 EXCEPT !.code = 307, !.loc = "none"]}
+          ELSE {[R0 EXCEPT !.code = c, !.loc = l] : c \in {302, 307}, l \in {"none", "bad", "path", "url"}}
 
 Digs == {<<"none", "", "">>, <<"empty", "", "">>, <<"bad", "", "">>, <<"ok", "sha256", "c">>, <<"ok", "sha512", "c">>,
          <<"ok", "sha256", "w">>, <<"ok", "sha256", "x">>, <<"ok", "sha256", "B">>}
@@ -60,25 +61,31 @@ LocsLite == {"none", "bad", "path", "pathq", "url"}
 
 OkAlpha(step, first) ==
   CASE step = "resolve" ->
-         {WithDig([R0 EXCEPT !.cl = c, !.ctype = t], d) : c \in {-1, 0, 2}, d \in Digs, t \in {"none", "manifest"}}
+         {WithDig([R0 EXCEPT !.cl = c, !.ctype = t], d) : c \in {-1, 0, 2}, d \in (IF Lite THEN DigsLite ELSE Digs),
+                                                          t \in (IF Lite THEN {"none"} ELSE {"none", "manifest"})}
     [] step = "read" ->
          IF first /\ ~Lite
          THEN {WithBody(WithDig([R0 EXCEPT !.cl = c], d), b, e) : c \in CLs, d \in Digs, b \in Bodies, e \in Ends}
          ELSE IF first
-         THEN {WithBody(WithDig([R0 EXCEPT !.cl = c], d), b, e) : c \in {-1, 0, 1, 2, 3}, d \in DigsLite, b \in {"c", "w", "s", "l", "e"}, e \in Ends}
-              \cup {WithBody(WithDig([R0 EXCEPT !.cl = Big], d), b, e) : d \in {<<"none", "", "">>, <<"ok", "sha256", "B">>}, b \in {"B", "Bw", "Bs", "Bl"}, e \in Ends}
+         THEN {WithBody(WithDig([R0 EXCEPT !.cl = c], d), b, "eof") : c \in {-1, 1, 2, 3}, d \in DigsLite, b \in {"c", "w", "s", "l", "e"}}
+              \cup {WithBody(WithDig([R0 EXCEPT !.cl = 2], d), "c", "cut") : d \in DigsLite}
+              \cup {WithBody(WithDig([R0 EXCEPT !.cl = Big], d), b, "eof") : d \in {<<"none", "", "">>, <<"ok", "sha256", "B">>}, b \in {"B", "Bw", "Bs", "Bl"}}
+              \cup {WithBody([R0 EXCEPT !.cl = Big], "B", "cut")}
          ELSE {WithBody(WithDig([R0 EXCEPT !.cl = c], d), b, "eof") : c \in {-1, 2}, d \in DigsLite, b \in {"c", "w"}}
     [] step = "head2" ->
-         {WithDig([R0 EXCEPT !.cl = c], d) : c \in {-1, 2, Big, Big + 1}, d \in Digs}
+         {WithDig([R0 EXCEPT !.cl = c], d) : c \in {-1, 2, Big, Big + 1}, d \in (IF Lite THEN DigsLite \cup {<<"ok", "sha256", "B">>} ELSE Digs)}
     [] step = "range" ->
-         {WithBody(WithDig([R0 EXCEPT !.code = 200, !.cl = c], d), b, e) : c \in {-1, 0, 2}, d \in DigsLite, b \in {"c", "s", "l", "e"}, e \in Ends}
+         LET ds == IF Lite THEN {<<"none", "", "">>, <<"bad", "", "">>} ELSE DigsLite
+             es == IF Lite THEN {"eof"} ELSE Ends IN
+         {WithBody(WithDig([R0 EXCEPT !.code = 200, !.cl = c], d), b, e) : c \in {-1, 0, 2}, d \in ds, b \in {"c", "s", "l", "e"}, e \in es}
          \cup {WithBody(WithDig([R0 EXCEPT !.code = 206, !.cl = 1, !.crf = cr[1], !.crtot = cr[2]], d), b, e) :
                   cr \in {<<"none", 0>>, <<"noslash", 0>>, <<"badnum", 0>>, <<"ok", 0>>, <<"ok", 1>>, <<"ok", 2>>},
-                  d \in DigsLite, b \in {"s", "c", "e"}, e \in Ends}
+                  d \in ds, b \in {"s", "c", "e"}, e \in es}
+         \cup {WithBody([R0 EXCEPT !.code = 206, !.cl = 1, !.crf = "ok", !.crtot = 2], "s", "cut")}
     [] step \in {"delete", "pushman", "put1"} ->
          {[R0 EXCEPT !.code = c, !.loc = l] : c \in OkCodes(step), l \in {"none", "path"}}
     [] step = "mount" ->
-         {WithDig([R0 EXCEPT !.code = c, !.loc = l], d) : c \in {201, 202}, l \in {"none", "path"}, d \in Digs}
+         {WithDig([R0 EXCEPT !.code = c, !.loc = l], d) : c \in {201, 202}, l \in {"none", "path"}, d \in (IF Lite THEN DigsLite ELSE Digs)}
     [] step = "referrers" ->
          {[R0 EXCEPT !.body = b[1], !.items = b[2], !.bend = e, !.ctype = "json"] :
              b \in {<<"list", 0>>, <<"list", 1>>, <<"list", 2>>, <<"list", 3>>, <<"wszero", 0>>, <<"wserr", 0>>,
@@ -88,9 +95,11 @@ OkAlpha(step, first) ==
          LET mms == {<<"none", 0>>, <<"bad", 0>>, <<"num", 1>>, <<"num", 3>>, <<"num", Huge>>} IN
          IF Full THEN {[R0 EXCEPT !.code = 202, !.loc = l, !.mf = mm[1], !.mv = mm[2]] : l \in Locs, mm \in mms}
          ELSE {[R0 EXCEPT !.code = 202, !.loc = l] : l \in (IF Lite THEN LocsLite ELSE Locs)}
-              \cup {[R0 EXCEPT !.code = 202, !.loc = "path", !.mf = mm[1], !.mv = mm[2]] : mm \in mms}
+              \cup {[R0 EXCEPT !.code = 202, !.loc = "path", !.mf = mm[1], !.mv = mm[2]] :
+                       mm \in (IF Lite THEN {<<"bad", 0>>, <<"num", 3>>, <<"num", Huge>>} ELSE mms)}
     [] step \in {"patch", "commit"} ->
-         {[R0 EXCEPT !.code = c, !.loc = l] : c \in OkCodes(step), l \in (IF Full THEN LocsLite ELSE {"none", "bad", "path", "url"})}
+         {[R0 EXCEPT !.code = c, !.loc = l] : c \in OkCodes(step),
+             l \in (IF Full THEN LocsLite ELSE IF Lite THEN {"none", "path"} ELSE {"none", "bad", "path", "url"})}
     [] step = "status" ->
          {[R0 EXCEPT !.code = 204, !.loc = x[1], !.rf = x[2][1], !.ra = x[2][2], !.rb = x[2][3], !.mf = x[3][1], !.mv = x[3][2]] :
            x \in {y \in
@@ -98,9 +107,15 @@ OkAlpha(step, first) ==
                    {<<"none", 0, 0>>, <<"empty", 0, 0>>, <<"nodash", 0, 0>>, <<"nonnum", 0, 0>>, <<"num", 0, 0>>,
                      <<"num", 0, 1>>, <<"num", 0, 3>>, <<"num", 2, 3>>, <<"num", 0, -3>>} \X
                    {<<"none", 0>>, <<"num", 3>>, <<"num", Huge>>} :
-             Full \/ (y[1] = "path" /\ (y[2][1] = "num" \/ y[3][1] = "none")) \/ (y[2] = <<"num", 0, 1>> /\ y[3][1] = "none")}}
+             \/ Full
+             \/ ~Lite /\ ((y[1] = "path" /\ (y[2][1] = "num" \/ y[3][1] = "none")) \/ (y[2] = <<"num", 0, 1>> /\ y[3][1] = "none"))
+             \/ Lite /\ (\/ (y[1] = "path" /\ y[3][1] = "none" /\ y[2] \notin {<<"empty", 0, 0>>, <<"nodash", 0, 0>>})
+                        \/ (y[1] = "path" /\ y[2] = <<"num", 0, 1>>)
+                        \/ (y[2] = <<"num", 0, 1>> /\ y[3][1] = "none"))}}
+    [] step = "page" /\ Lite /\ cq >= 2 ->
+         {[R0 EXCEPT !.body = "list", !.items = i, !.ctype = "json"] : i \in {0, N}}
     [] step = "page" ->
-         LET cnts == {x \in {0, 1, N - 1, N, N + 1} : x >= 0}
+         LET cnts == {x \in (IF Lite /\ ~first THEN {0, N, N + 1} ELSE {0, 1, N - 1, N, N + 1}) : x >= 0}
              thin == ~Full /\ (~first \/ Lite) IN
          {[R0 EXCEPT !.body = "list", !.items = i, !.link = lk, !.bend = e, !.ctype = "json"] :
              i \in cnts, lk \in (IF thin THEN {"none", "ok", "badurl"} ELSE {"none", "empty", "ok", "nolt", "nogt", "badurl"}),
@@ -112,7 +127,8 @@ OkAlpha(step, first) ==
     [] OTHER -> {}
 
 Alpha(step) ==
-  IF fl.on \/ cq > 0 \/ (~Full /\ ncalls > 1) THEN OkAlpha(step, FALSE) \cup {[R0 EXCEPT !.code = 404, !.ctype = "json", !.body = "errjson"], Net}
+  IF Lite /\ ncalls > 2 THEN OkAlpha(step, FALSE) \cup {[R0 EXCEPT !.code = 404, !.ctype = "json", !.body = "errjson"]}
+  ELSE IF fl.on \/ cq > 0 \/ (~Full /\ ncalls > 1) THEN OkAlpha(step, FALSE) \cup {[R0 EXCEPT !.code = 404, !.ctype = "json", !.body = "errjson"], Net}
   ELSE OkAlpha(step, TRUE) \cup Errs(step) \cup Redirs \cup {Net}
 
 -----------------------------------------------------------------------------
@@ -130,22 +146,29 @@ TopCallsOf(Family) ==
     [] Family = "read" ->
          {[Cl("GetBlob") EXCEPT !.ref = "digest"], [Cl("GetManifest") EXCEPT !.ref = "digest"], [Cl("GetTag") EXCEPT !.ref = "tag"]}
     [] Family = "range" ->
-         {[Cl("GetBlobRange") EXCEPT !.ref = "digest", !.o0 = o[1], !.o1 = o[2]] : o \in {<<0, MinusOne>>, <<1, MinusOne>>, <<0, 1>>, <<1, 2>>, <<0, 0>>}}
+         {[Cl("GetBlobRange") EXCEPT !.ref = "digest", !.o0 = o[1], !.o1 = o[2]] :
+             o \in (IF Lite THEN {<<1, MinusOne>>, <<0, 1>>} ELSE {<<0, MinusOne>>, <<1, MinusOne>>, <<0, 1>>, <<1, 2>>, <<0, 0>>})}
     [] Family = "list" ->
          {[Cl(x[1]) EXCEPT !.take = x[2], !.start = x[3]] :
-             x \in {y \in {"Repositories", "Tags"} \X {0, 1, 3} \X BOOLEAN : Full \/ y[2] = 0 \/ ~y[3]}}
+             x \in {y \in {"Repositories", "Tags"} \X {0, 1, 3} \X BOOLEAN :
+                       \/ Full \/ (~Lite /\ (y[2] = 0 \/ ~y[3]))
+                       \/ (Lite /\ y[2] # 3 /\ (y[2] = 0 \/ ~y[3]) /\ ((y[1] = "Repositories" /\ ps = 1) \/ (y[2] = 0 /\ ~y[3])))}}
     [] Family = "upload" ->
-         {[Cl("PushBlobChunked") EXCEPT !.hint = hh] : hh \in {0, 1, 2}}
-         \cup {[Cl("Resume") EXCEPT !.off = MinusOne, !.idform = "path", !.hint = hh] : hh \in {0, 1}}
-         \cup {[Cl("Resume") EXCEPT !.off = o, !.idform = f, !.hint = 2] :
-                  o \in {-2, 0, 3}, f \in {"path", "url", "rel", "bad", "empty"}}
+         {[Cl("PushBlobChunked") EXCEPT !.hint = hh] : hh \in (IF Lite THEN {1} ELSE {0, 1, 2})}
+         \cup {[Cl("Resume") EXCEPT !.off = MinusOne, !.idform = "path", !.hint = hh] : hh \in (IF Lite THEN {1} ELSE {0, 1})}
+         \cup {[Cl("Resume") EXCEPT !.off = x[1], !.idform = x[2], !.hint = 2] :
+                  x \in (IF Lite THEN {<<-2, "path">>, <<0, "path">>, <<3, "url">>, <<0, "rel">>, <<0, "bad">>, <<0, "empty">>}
+                         ELSE {-2, 0, 3} \X {"path", "url", "rel", "bad", "empty"})}
     [] OTHER -> {}
 
-TopCalls == UNION {TopCallsOf(f) : f \in Families}
+\* (the page size matters to the listing operations only: the exports enumerate the other families for one size
+\* and the harness rotates the sizes over them)
+TopCalls == UNION {TopCallsOf(f) : f \in {g \in Families : Full \/ g = "list" \/ ps = 1}}
 AllFamilies == {"single", "read", "range", "list", "upload"}
 
-WriterCalls == {[Cl("Write") EXCEPT !.wlen = k] : k \in {1, 2}}
-               \cup {Cl("Close"), Cl("Size"), [Cl("Commit") EXCEPT !.dg = "want"], [Cl("Commit") EXCEPT !.dg = "empty"]}
+WriterCalls == {[Cl("Write") EXCEPT !.wlen = k] : k \in (IF Lite /\ ncalls > 1 THEN {2} ELSE {1, 2})}
+               \cup {[Cl("Commit") EXCEPT !.dg = "want"]} \cup (IF Lite /\ ncalls > 1 THEN {} ELSE {Cl("Close")})
+               \cup (IF Lite /\ ncalls > 1 THEN {} ELSE {Cl("Size"), [Cl("Commit") EXCEPT !.dg = "empty"]})
 Menu ==
   IF ncalls = 0 THEN TopCalls
   ELSE IF ncalls >= MaxCalls THEN {}
